@@ -11,3 +11,7 @@ import NutsModel.Model.Schedule
 import NutsModel.Drv.C06
 import NutsModel.Model.Kernels
 import NutsModel.Drv.C17
+import NutsModel.Model.StatsSchema
+import NutsModel.Gen.Schema
+import NutsModel.Model.Stats
+import NutsModel.Drv.C16
